@@ -2,6 +2,7 @@ import EupsModel.Lemmas.VersionMatch
 import EupsModel.Lemmas.VersionAcross
 import EupsModel.Lemmas.VersionExpr
 import EupsModel.Lemmas.VersionPrint
+import EupsModel.Lemmas.VersionList
 import EupsModel.Lemmas.VersionLex
 /-! C10 — version names are ordered consistently: property theorems.
 
@@ -890,6 +891,124 @@ example : latestAcrossMin (some n_1d10) [[n_1d9, n_1d2], [n_1d2d0]] = .ok none :
 example : latestAcrossMin (some n_1d9) [[n_1d9, n_1d2], [n_1d10, n_1d2d0]] = .ok (some (1, n_1d10)) := by decide
 example : matchesAcross (render (opGe, n_1d9) []) [[n_1d9, n_1d2], [n_1d10, n_1d9]] = .ok [(0, n_1d9), (1, n_1d10)] := by decide
 example : [n_1d2, n_1d9, n_1d10].Perm [n_1d9, n_1d10, n_1d2] := by decide
+
+/-! ## the listing entry point: `Eups.findProducts(name, version, tags)` — `eups list prod "expr" -t tag` -/
+
+/-- **Every product listed satisfies the request**, whatever tags are asked for and whichever versions carry
+them (the products the tag loop appends are filtered like all others), and no version is listed twice. -/
+theorem C10_list_satisfies_request (verArg : Str) (tags : List Str) (stacks : List (List Decl)) (l : List (Nat × Str))
+    (hne : verArg ≠ []) (h : listProducts verArg tags stacks = .ok (.products l)) :
+    (∀ p ∈ l, verOk verArg p.2 = .ok (some true)) ∧ (l.map Prod.snd).Nodup := by
+  simp only [listProducts] at h
+  cases hs : listStacks verArg tags stacks 0 stacks [] with
+  | error e => simp [hs] at h
+  | ok oo =>
+    cases oo with
+    | none => simp [hs] at h
+    | some out =>
+      have hemp : verArg.isEmpty = false := by cases verArg <;> simp_all
+      simp only [hs, hemp, Bool.false_eq_true, if_false] at h
+      split at h
+      · simp at h
+      · cases hf : finalFilter verArg out with
+        | error e => simp [hf] at h
+        | ok ol =>
+          cases ol with
+          | none => simp [hf] at h
+          | some l' =>
+            simp only [hf, Except.ok.injEq, ListOut.products.injEq] at h
+            subst h
+            exact ⟨fun p hp => ((finalFilter_spec verArg out l' hf p).mp (mem_uniqVers hp)).2, (uniqVers_nodup l' []).1⟩
+
+/-- For a relational request: every version listed is accepted by `version_match` … -/
+theorem C10_list_relational (verArg : Str) (tags : List Str) (stacks : List (List Decl)) (l : List (Nat × Str))
+    (hrel : isLegalRelativeVersion verArg = .relational) (h : listProducts verArg tags stacks = .ok (.products l)) :
+    ∀ p ∈ l, versionMatch p.2 verArg = .ok true := by
+  have hne : verArg ≠ [] := by intro e; subst e; simp [isLegalRelativeVersion, hasRelop, badRelop] at hrel
+  intro p hp
+  have := (C10_list_satisfies_request verArg tags stacks l hne h).1 p hp
+  simp only [verOk, hrel] at this
+  cases hm : versionMatch p.2 verArg with
+  | error e => simp [hm] at this
+  | ok b => simp only [hm, Except.ok.injEq, Option.some.injEq] at this; rw [this]
+
+/-- … hence, for a chain of alternatives (any spacing and spelling, an explicit operator somewhere), in one of the
+stated relations of the order. -/
+theorem C10_list_accepts_only_the_relation (lead : Str) (t : GTerm) (os : List Link) (trail : Str)
+    (tags : List Str) (stacks : List (List Decl)) (l : List (Nat × Str))
+    (hlead : isWs lead) (ht : t.Wf) (hls : ∀ k ∈ os, k.Wf) (htr : isWs trail) (hor : ∀ k ∈ os, k.isOr)
+    (y0 : GTerm) (hy0 : y0 ∈ t :: os.map Link.term) (o : Str) (ho : y0.op = some o) (hr : isRelop o)
+    (h : listProducts (renderG lead t os trail) tags stacks = .ok (.products l))
+    (hcmp : ∀ p ∈ l, ∀ y ∈ t :: os.map Link.term, ∃ r, stdCompare true p.2 y.name = .ok r) :
+    ∀ p ∈ l, ∃ y ∈ t :: os.map Link.term, Holds p.2 y := by
+  intro p hp
+  have hm := C10_list_relational _ tags stacks l (C10_legal_relational lead t os trail y0 hy0 o ho hr) h p hp
+  exact (C10_match_iff_general p.2 lead t os trail hlead ht hls htr hor (hcmp p hp)).mp hm
+
+theorem mem_map_uniqVers (l : List (Nat × Str)) (v : Str) : v ∈ (uniqVers l []).map Prod.snd ↔ v ∈ l.map Prod.snd := by
+  constructor
+  · intro h
+    obtain ⟨p, hp, rfl⟩ := List.mem_map.mp h
+    exact List.mem_map_of_mem (mem_uniqVers hp)
+  · intro h; exact uniqVers_complete h (by simp)
+
+/-- **No tag asked for: the listing is exactly the declared versions that pass the version argument**
+(a relational request: that `version_match` accepts; a pattern: that it matches; none: all), each version once. -/
+theorem C10_list_exact (verArg : Str) (stacks : List (List Decl)) (l : List (Nat × Str))
+    (h : listProducts verArg [] stacks = .ok (.products l)) :
+    (∀ v, v ∈ l.map Prod.snd ↔ (∃ st ∈ stacks, ∃ d ∈ st, d.ver = v) ∧ Passes verArg v) ∧ (l.map Prod.snd).Nodup := by
+  simp only [listProducts] at h
+  cases hs : listStacks verArg [] stacks 0 stacks [] with
+  | error e => simp [hs] at h
+  | ok oo =>
+    cases oo with
+    | none => simp [hs] at h
+    | some out =>
+      have hout := listStacks_notags verArg stacks stacks 0 [] out hs
+      simp only [List.map_nil, List.not_mem_nil, false_or] at hout
+      simp only [hs] at h
+      by_cases he : verArg = []
+      · subst he
+        simp only [List.isEmpty_nil, if_true, Except.ok.injEq, ListOut.products.injEq] at h
+        subst h
+        exact ⟨fun v => by rw [mem_map_uniqVers, hout v], (uniqVers_nodup out []).1⟩
+      · have hemp : verArg.isEmpty = false := by cases verArg <;> simp_all
+        simp only [hemp, Bool.false_eq_true, if_false] at h
+        split at h
+        · simp at h
+        · cases hf : finalFilter verArg out with
+          | error e => simp [hf] at h
+          | ok ol =>
+            cases ol with
+            | none => simp [hf] at h
+            | some l' =>
+              simp only [hf, Except.ok.injEq, ListOut.products.injEq] at h
+              subst h
+              refine ⟨fun v => ?_, (uniqVers_nodup l' []).1⟩
+              rw [mem_map_uniqVers]
+              have hff := finalFilter_spec verArg out l' hf
+              constructor
+              · intro hv
+                obtain ⟨p, hp, rfl⟩ := List.mem_map.mp hv
+                obtain ⟨h1, h2⟩ := (hff p).mp hp
+                exact (hout p.2).mp (List.mem_map_of_mem h1)
+              · intro hv
+                obtain ⟨p, hp, rfl⟩ := List.mem_map.mp ((hout v).mpr hv)
+                have hpass : verOk verArg p.2 = .ok (some true) := by
+                  rcases hv.2 with h | h
+                  · exact absurd h he
+                  · exact h
+                exact List.mem_map_of_mem ((hff p).mpr ⟨hp, hpass⟩)
+
+/-! the integrator's seeded change (round 3): `eups list prod ">= 1.10" -t current` with `current` on `1.9` -/
+def s_current : Str := [99, 117, 114, 114, 101, 110, 116]
+#guard Str.toString s_current == "current"
+#guard Str.toString sLatest == "latest"
+example : listProducts (render (opGe, n_1d10) []) [s_current] [[⟨n_1d9, [s_current]⟩, ⟨n_1d10, []⟩, ⟨n_1d2, []⟩]] = .ok (.products []) := by decide
+example : listProducts (render (opGe, n_1d9) []) [s_current] [[⟨n_1d9, [s_current]⟩, ⟨n_1d10, []⟩, ⟨n_1d2, []⟩]] = .ok (.products [(0, n_1d9)]) := by decide
+example : listProducts (render (opGe, n_1d9) []) [] [[⟨n_1d10, []⟩, ⟨n_1d9, [s_current]⟩, ⟨n_1d2, []⟩]] = .ok (.products [(0, n_1d9), (0, n_1d10)]) := by decide
+example : listProducts (render (opGe, n_1d9) []) [sLatest] [[⟨n_1d10, []⟩, ⟨n_1d9, [s_current]⟩, ⟨n_1d2, []⟩]] = .ok (.products [(0, n_1d10)]) := by decide
+example : listProducts [49, 46, 42] [] [[⟨n_1d10, []⟩, ⟨n_2, []⟩, ⟨n_1d2, []⟩]] = .ok (.products [(0, n_1d2), (0, n_1d10)]) := by decide   -- `1.*`
 
 /-! non-vacuity: a chain, its rendering, the loop's answer; a list and its latest member -/
 example : render (opGe, n_1d2) [(opLt, n_1d10)] = [62, 61, 32, 49, 46, 50, 32, 124, 124, 32, 60, 32, 49, 46, 49, 48] := by decide
